@@ -154,7 +154,7 @@ class AminoAcidSeqRecord(SeqRecord):
 
         for it in re.finditer(rule, str(self.seq)):
             s = it.end()
-            if s not in exception_sites:
+            if s not in exception_sites and s < len(self.seq):
                 yield it.end()
 
     def iter_enzymatic_cleave_sites_with_range(self, rule:str, exception:str=None,
@@ -194,7 +194,7 @@ class AminoAcidSeqRecord(SeqRecord):
                 f"sites={sites}, ranges={ranges}"
             )
         for s, r in zip(sites, ranges):
-            if s not in exception_sites:
+            if s not in exception_sites and s < len(seq):
                 yield s, r
 
     def iter_enzymatic_cleave_sites_with_range_local(self, rule:str, exception:str=None,
